@@ -49,6 +49,26 @@ IGNORED_HEADERS = {
 }
 
 
+def is_usable_location(location: str) -> bool:
+    """Test if location is a http(s) URL whose host is neither loopback nor IPv4 link-local."""
+    if not location.startswith("http"):
+        return False
+    try:
+        parts = urlparse(location)
+        hostname = parts.hostname
+    except ValueError:
+        return False
+    if parts.scheme not in ("http", "https") or not hostname or hostname == "localhost":
+        return False
+    try:
+        address = ip_address(hostname)
+    except ValueError:
+        # A host name.
+        return True
+    address = getattr(address, "ipv4_mapped", None) or address
+    return not (address.is_loopback or (address.version == 4 and address.is_link_local))
+
+
 def valid_search_headers(headers: CaseInsensitiveDict) -> bool:
     """Validate if this search is usable."""
     # pylint: disable=invalid-name
@@ -59,12 +79,7 @@ def valid_search_headers(headers: CaseInsensitiveDict) -> bool:
         udn
         and st
         and location
-        and location.startswith("http")
-        and not (
-            "://127.0.0.1" in location
-            or "://[::1]" in location
-            or "://169.254" in location
-        )
+        and is_usable_location(location)
     )
 
 
@@ -80,12 +95,7 @@ def valid_advertisement_headers(headers: CaseInsensitiveDict) -> bool:
         and nt
         and nts
         and location
-        and location.startswith("http")
-        and not (
-            "://127.0.0.1" in location
-            or "://[::1]" in location
-            or "://169.254" in location
-        )
+        and is_usable_location(location)
     )
 
 
